@@ -1,9 +1,9 @@
 (* C13 - property theorems only. Statements are about the Mech model of the pinned code (Model.v:
    mech_match, encode/decode, m_step, m_chain, m_qmark, classify, try_like, m_run_a/q/t) and its relation
    to the Spec (spec_match, s_step, s_chain, spec_try, s_run_a/q/t). Proofs: MatchLemmas.v, Transport.v,
-   Chain.v, Try.v. *)
+   Chain.v, Try.v, Suite.v. *)
 From Coq Require Import List ZArith Bool Ascii String Arith.
-From Cb Require Import C13.Model C13.MatchLemmas C13.Transport C13.Chain C13.Try.
+From Cb Require Import C13.Model C13.MatchLemmas C13.Transport C13.Chain C13.Try C13.Suite.
 Import ListNotations.
 Local Open Scope Z_scope.
 
@@ -40,6 +40,55 @@ Theorem match_refines_spec : forall c arms, good_for_match (c_payload c) = true 
   mech_match (encode c) arms = spec_match c arms.
 Proof. exact match_refines_l. Qed.
 Print Assumptions match_refines_spec.
+
+(* the selected arm names the stored variant EXACTLY (same length, same bytes, same case) - for every stored value,
+   every arm list, whatever other names the list contains *)
+Theorem match_selected_name_equal : forall sv arms i v b,
+  arm_index (mech_match sv arms) = Some i -> nth_error arms i = Some (PatVar v b) -> v = s_variant sv.
+Proof. exact match_selected_name_equal_l. Qed.
+Print Assumptions match_selected_name_equal.
+
+(* an arm whose name differs from the stored variant in any way is passed over; in particular an arm whose name is a
+   proper prefix of the stored name (arm Key, value KeyUp) and one whose name extends it (arm KeyUp, value Key) *)
+Theorem match_skips_other_names :
+  (forall sv v b rest k, v <> s_variant sv -> mech_match_from k sv (PatVar v b :: rest) = mech_match_from (S k) sv rest) /\
+  (forall sv v t b rest k, s_variant sv = v ++ t -> t <> [] ->
+     mech_match_from k sv (PatVar v b :: rest) = mech_match_from (S k) sv rest) /\
+  (forall sv v t b rest k, v = s_variant sv ++ t -> t <> [] ->
+     mech_match_from k sv (PatVar v b :: rest) = mech_match_from (S k) sv rest).
+Proof. exact (conj match_skips_other_names_l (conj match_prefix_name_skipped_l match_extended_name_skipped_l)). Qed.
+Print Assumptions match_skips_other_names.
+
+(* sequences of match statements packaged as functions (void / returning from inside the arm / expression-bodied arms /
+   inside a loop / with a nested match / inline), any functions, any calls: on the conforming fragment Mech = Spec *)
+Theorem match_suite_refines_spec_partial : forall p, safe_m p = true -> m_run_m p = s_run_m p.
+Proof. exact suite_refines_l. Qed.
+Print Assumptions match_suite_refines_spec_partial.
+
+(* what a call prints does not depend on the calls before it (other values met by the same match code, other functions):
+   it is m_call of its own function and values; and the first failing call ends the program *)
+Theorem match_suite_history_free :
+  (forall fns ks1 k ks2, snd (run_prefix (m_call fns) ks1) = XOk ->
+     mr_events (m_run_m (mkM fns (ks1 ++ k :: ks2))) =
+       fst (run_prefix (m_call fns) ks1) ++ fst (then_ev (m_call fns k) (run_calls (m_call fns) ks2))) /\
+  (forall fns ks1 k ks2, snd (run_prefix (m_call fns) ks1) = XOk -> snd (m_call fns k) <> XOk ->
+     m_run_m (mkM fns (ks1 ++ k :: ks2)) =
+       mkMR (fst (run_prefix (m_call fns) ks1) ++ fst (m_call fns k)) (snd (m_call fns k))).
+Proof. exact (conj suite_history_free_l suite_stops_at_failure_l). Qed.
+Print Assumptions match_suite_history_free.
+
+(* hj(T::V(p)) - the constructor expression itself as an argument - arrives as an integer (recorded finding) *)
+Theorem match_suite_refuted_constructor_argument :
+  let p := mkM [mkF MVoid key_arms None] [mkK 0 (mkC (s2l "Key") (PInt 5)) (mkC [] PNone) true] in
+  m_run_m p = mkMR [] XNotEnum /\ s_run_m p = mkMR [EM 0 0 (VInt 5); EEnd 0; EDone] XOk.
+Proof. exact suite_constructor_argument_refuted_l. Qed.
+Print Assumptions match_suite_refuted_constructor_argument.
+
+(* the struct-or-integer rule for payload-less literals is a prefix test on the type name *)
+Theorem builtin_rule_is_name_prefix : forall tn,
+  builtin_of_name tn = true <-> (exists t, tn = s2l "Result" ++ t) \/ (exists t, tn = s2l "Option" ++ t).
+Proof. exact builtin_of_name_spec_l. Qed.
+Print Assumptions builtin_rule_is_name_prefix.
 
 (* ------------------------------------------------------------------ payload channels *)
 (* decode (encode p) = p for PNone, every PInt and every non-empty PStr. Missing: PStr "" *)
@@ -198,6 +247,15 @@ Example safe_q_example :
   let p := mkQ KResult [mkL QStmt (PStr (s2l "e1")); mkL QRet (PInt 2); mkL QStmt (PInt 3); mkL QAsg (PStr (s2l "e4"))] (PInt 7) 3 in
   safe_q p = true /\ m_run_q p = mkR [EEnter 1; EEnter 2; EEnter 3; EArm 1 (VInt 3); EAfter] XOk.
 Proof. vm_compute. split; reflexivity. Qed.
+
+Example safe_m_example :
+  let f := mkF MRet [PatVar (s2l "Key") BName; PatWild] None in
+  let p := mkM [mkF MVoid key_arms None; f]
+               [mkK 0 (mkC (s2l "KeyUp") (PInt 65)) (mkC [] PNone) false; mkK 1 (mkC (s2l "KeyRepeat") (PInt 72)) (mkC [] PNone) false;
+                mkK 1 (mkC (s2l "Key") (PInt 70)) (mkC [] PNone) false] in
+  safe_m p = true /\
+  m_run_m p = mkMR [EM 0 1 (VInt 65); EEnd 0; EM 1 1 VNo; ERetV 1 1; EM 1 0 (VInt 70); ERetV 1 0; EDone] XOk.
+Proof. exact suite_example_l. Qed.
 
 Example safe_t_example :
   let p := mkT true TMain 7 0 (CAdd (CMod CA CB) (CIdx (CLit 3))) in
